@@ -800,7 +800,8 @@ def mat_fixture(n):
     d1a = JointNormalDistribution(tuple("OCA%d" % i for i in range(n)), "IOV", Matrix([0] * n), Matrix(nm))
     d1b = JointNormalDistribution(tuple("OCB%d" % i for i in range(n)), "IOV", Matrix([0] * n), Matrix(nm))
     fx = {"nm": nm, "rvs1": rvs1, "rvs": rvs, "base": base, "others": others, "rvs_without_block": RandomVariables.create([d2, d3]),
-          "rvs_shared": RandomVariables.create([d1a, d1b, d2, d3])}
+          "rvs_shared": RandomVariables.create([d1a, d1b, d2, d3]),
+          "rvs_block_second": RandomVariables.create([d2, d1, d3])}  # a valid block in front of the swept one
     _MAT_CACHE[n] = fx
     return fx
 
@@ -887,6 +888,9 @@ def check_matrix(n, vals, level):
         m2 = m0.replace(parameters=params)
         ncmp += 1
         fails.extend(compare_repaired(m2.parameters.inits, values, nm, pos, psd, ref, scale, "Model.replace", fx["others"]))
+        m4 = Model.create(name="m", parameters=params, random_variables=fx["rvs_block_second"])
+        ncmp += 1
+        fails.extend(compare_repaired(m4.parameters.inits, values, nm, pos, psd, ref, scale, "Model.create (block behind a valid block)", fx["others"]))
         # only the random variables are replaced: the parameters (whose block entries no distribution used so far) stay
         m00 = Model.create(name="m", parameters=params, random_variables=fx["rvs_without_block"])
         m3 = m00.replace(random_variables=fx["rvs"])
